@@ -891,6 +891,14 @@ def _eq_hash_semantic(ctx, mdl, cls):
         eq = lambda x, y: bool(it.truth(it.compare_vals('eq', x, y)))
         ne = lambda x, y: bool(it.truth(it.compare_vals('ne', x, y)))
         out = {'same_eq': eq(a, clone({})), 'same_ne': ne(a, clone({})), 'other_type': eq(a, 5), 'defining': list(defining)}
+        if cls.name == 'Path':
+            # degenerate instances: two separately built paths without segments, and two one-segment paths (loops over
+            # segment pairs run zero times / once)
+            for mk in (lambda: it.construct('path.Path'),
+                       lambda: it.construct('path.Path', it.construct('path.Line', Rat.csym('A0'), Rat.csym('B0')))):
+                e1, e2 = mk(), mk()
+                out['same_eq'] = out['same_eq'] and eq(e1, e2)
+                out['same_ne'] = out['same_ne'] or ne(e1, e2)
         out['differs'] = {f: (eq(a, clone({f: alt(f)})), ne(a, clone({f: alt(f)}))) for f in defining if f in a.attrs}
         hv = lambda o: it.call_method(o, '__hash__')
         h0 = hv(a)
